@@ -4,12 +4,16 @@
 
    The move collection of a pass (memutils/defrag/context.go: BlockListCollectMoves and everything below it)
    is NOT modelled again: the block list is projected to the state of the validated model Defrag.v
-   ([project]), Defrag.collect_moves runs on it, and the result is written back ([commit_moves]): the new
-   TLSF states, one temporary Allocation object per move, and — replayed in move order — the effects of
-   vam's CommitDefragAllocationRequest that Defrag.v's reference block list does not have
-   (RecordSuballocSubfree and Map on the destination block, AddAllocation).  Those effects do not feed back
-   into the collection (it reads only block metadata), except for a failing vkMapMemory, which makes the real
-   code try the next block: that case is STUCK here (not covered; needs a fault injected into a pass).
+   ([project]) and Defrag.collect_moves_f runs on it.  vam's CommitDefragAllocationRequest does things Defrag.v's
+   reference block list does not have: RecordSuballocSubfree and Map on the destination block (before
+   metadata.Alloc), AddAllocation after it.  A failing vkMapMemory makes the commit fail, and the planner then
+   goes on (next block / lower offset / next allocation); so the planner is run with a commit oracle
+   ([att_commit]: the RecordSuballocSubfree + Map part of a commit, executed on a copy of the allocator state,
+   which carries the driver's fault state).  Its result is written back: the new TLSF states, and then the log
+   of commit attempts is replayed in order on the allocator state itself ([replay_log]): a failed attempt leaves
+   its device / SynchronizedMemory effects (the unmap of the hysteresis mapping, the failed vkMapMemory in the
+   call log), a successful one is [commit_move] (the same effects, one temporary Allocation object, AddAllocation).
+   The replay repeats exactly the oracle's computations (VamDefragNp: it never disagrees with it).
 
    Completing a pass is modelled directly, because the handler is vam's (frees go through
    memoryBlockList.Free with its retention policy, unmapping and budget counters).  Go iterates a map when it
@@ -167,18 +171,53 @@ Fixpoint commit_moves (v : vam) (lr : lref) (mvs : list Defrag.move) : vam * out
     end
   end.
 
+(* the part of commitAllocationRequest before metadata.Alloc, on block dst of the list, for a temporary of the
+   Allocation in [slot]: RecordSuballocSubfree, then Map when the source is persistently mapped *)
+Definition commit_attempt (v : vam) (lr : lref) (slot : nat) (dst : Z) : vam * out unit :=
+  let src := get_alloc v (Z.of_nat slot) in
+  match get_block v lr dst with
+  | Some b =>
+    let '(m1, s1) := sm_sub (v_m v) (bk_mem b) (bk_sm b) in
+    let '(m2, s2, mr) := if a_persist src then sm_map c m1 (bk_mem b) s1 else (m1, s1, OK tt) in
+    (put_block (set_m v m2) lr (mkBlock (bk_id b) (bk_mem b) s2 (bk_meta b)), mr)
+  | None => (v, STUCK)
+  end.
+
+(* the planner's commit oracle: the environment is (a copy of) the allocator state *)
+Definition att_commit (lr : lref) (e : vam) (slot : nat) (dst : Z) : vam * bool :=
+  let '(e', r) := commit_attempt e lr slot dst in
+  (e', match r with OK _ => true | _ => false end).
+
+(* the commit attempts of a collecting pass, in order, on the allocator state (after the write-back) *)
+Fixpoint replay_log (v : vam) (lr : lref) (log : list Defrag.attempt) : vam * out unit :=
+  match log with
+  | [] => (v, OK tt)
+  | Defrag.AtFail slot dst :: tl =>
+    let '(v1, r) := commit_attempt v lr slot dst in
+    match r with
+    | ER _ => replay_log v1 lr tl
+    | PANIC => (v1, PANIC)
+    | _ => (v1, STUCK)        (* an attempt logged as failed was refused by the oracle: it fails here too (VamDefragNp) *)
+    end
+  | Defrag.AtOk mv :: tl =>
+    let '(v1, r) := commit_move v lr mv in
+    match r with
+    | OK _ => replay_log v1 lr tl
+    | other => (v1, other)
+    end
+  end.
+
 (* BlockListCollectMoves of one context: new state, new context, pass counters *)
 Definition collect_list (v : vam) (dc : dfctx) (p : Pass.pass) : vam * out (dfctx * Pass.pass) :=
   match project v (dc_lr dc), get_blist v (dc_lr dc) with
   | Some st, Some l =>
-    let '(cs, wr) := Defrag.collect_moves st (dc_ctx dc) p in
+    let '((cs, _, log), wr) := Defrag.collect_moves_f vam (att_commit (dc_lr dc)) st (dc_ctx dc) p v in
     match wr with
     | Defrag.WPanic _ => (v, PANIC)
     | _ =>
       let v1 := set_blist v (dc_lr dc)
                           (set_blocks l (unproject_blocks (bl_blocks l) (Defrag.d_blocks (Defrag.cs_st cs)))) in
-      let newmoves := skipn (length (Defrag.c_moves (dc_ctx dc))) (Defrag.cs_moves cs) in
-      let '(v2, r) := commit_moves v1 (dc_lr dc) newmoves in
+      let '(v2, r) := replay_log v1 (dc_lr dc) log in
       match r with
       | OK _ =>
         (v2, OK (mkDfctx (dc_lr dc) (Defrag.mkC (Defrag.c_algo (dc_ctx dc)) (Defrag.cs_moves cs)
